@@ -58,6 +58,40 @@ func ruleC05(w *World, r *Report) {
 		c, ok := i.(*ssa.Call)
 		return ok && c.Call.IsInvoke() && c.Call.Method.Name() == "SendMsgToUPF" && sendMsgMethod(c) == mDel
 	}
+	// freesTEIDs: the instruction gives the session's UP-chosen TEIDs back: a call that reaches FreeID
+	// (releaseAllocatedTEIDs), or the same thing written out in place — the entry of a loop over the
+	// session's PDR list that visits every PDR and, each way round, either frees or has found the PDR
+	// without the UP's allocation mark. (A path that leaves such a loop has freed what there was to free,
+	// although it may have passed no FreeID call at all.)
+	freesTEIDs := func(f *ssa.Function) instrPred {
+		frees := reaches(freeID)
+		entries := map[ssa.Instruction]bool{}
+		for _, l := range rangeLoopsOver(f, "pdrs") {
+			hdr, body := l[0], l[1]
+			if len(body.Instrs) == 0 || len(hdr.Instrs) == 0 || len(loopEarlyExits(f, hdr)) != 0 {
+				continue
+			}
+			first := body.Instrs[0]
+			unmarked := func(a, b *ssa.BasicBlock) bool {
+				v, truth, ok := boolEdge(a, b)
+				return ok && !truth && strings.HasSuffix(symOf(v).String(), "UPAllocateFteid")
+			}
+			round := func(i ssa.Instruction) bool { return (i.Block() == hdr && idxIn(hdr, i) == 0) || isReturn(i) }
+			if !frees(first) && reach(f, first, round, frees, unmarked) != nil {
+				continue
+			}
+			any := false
+			for b := range naturalLoop(hdr) {
+				for _, i := range b.Instrs {
+					any = any || frees(i)
+				}
+			}
+			if any {
+				entries[hdr.Instrs[0]] = true
+			}
+		}
+		return func(i ssa.Instruction) bool { return entries[i] || frees(i) }
+	}
 
 	// ---------- RemoveSession itself
 	{
@@ -120,7 +154,7 @@ func ruleC05(w *World, r *Report) {
 			r.check(onEveryPathThrough(f, c, isDelWrite, nil), "R05.2", fn, "session end removes the datapath entries", pos, "SendMsgToUPF(delete) on every path through the site", "a session is ended without removing its datapath entries")
 		}
 		r.check(onEveryPathThrough(f, c, reaches(dealloc), noPoolEdge), "R05.2", fn, "session end releases the UE IP", pos, "IPPool.DeallocIP reachable on every path through the site", "a session ends here without giving its UE IP address back to the pool")
-		r.check(onEveryPathThrough(f, c, reaches(freeID), nil), "R05.2", fn, "session end frees the UP-chosen TEIDs", pos, "FTEIDGenerator.FreeID reachable on every path through the site", "a session ends here without freeing the TEIDs the UP chose for it (FTEIDGenerator.FreeID)")
+		r.check(onEveryPathThrough(f, c, freesTEIDs(f), nil), "R05.2", fn, "session end frees the UP-chosen TEIDs", pos, "FTEIDGenerator.FreeID reachable on every path through the site", "a session ends here without freeing the TEIDs the UP chose for it (FTEIDGenerator.FreeID)")
 	}
 	r.floor("R05.2 session-end sites (callers of RemoveSession)", nSites, 4)
 	// the four ways a session ends are all present
@@ -694,10 +728,34 @@ func ruleOwnershipMarksSurvive(w *World, r *Report, prop, rule string) {
 				kept = true
 				return
 			}
-			if onlyVia(upd, st, func(a, b *ssa.BasicBlock) bool {
+			markEdge := func(a, b *ssa.BasicBlock) bool {
 				v, truth, ok := boolEdge(a, b)
 				return ok && truth && elemField(v, field, 0)
-			}) {
+			}
+			if onlyVia(upd, st, markEdge) {
+				kept = true
+			}
+			// the same control dependence when the new mark is computed as one expression
+			// (`own || (stored && cond)`): an alternative of the value that can set the mark and is
+			// taken only under the stored element's mark
+			var chosenUnderMark func(v ssa.Value, d int) bool
+			chosenUnderMark = func(v ssa.Value, d int) bool {
+				phi, ok := v.(*ssa.Phi)
+				if !ok || d > 4 {
+					return false
+				}
+				for k, e := range phi.Edges {
+					if c, isK := constBool(e); (isK && !c) || k >= len(phi.Block().Preds) {
+						continue
+					}
+					p := phi.Block().Preds[k]
+					if markEdge(p, phi.Block()) || (len(p.Instrs) > 0 && onlyVia(upd, p.Instrs[len(p.Instrs)-1], markEdge)) || chosenUnderMark(e, d+1) {
+						return true
+					}
+				}
+				return false
+			}
+			if chosenUnderMark(st.Val, 0) {
 				kept = true
 			}
 		})
